@@ -31,6 +31,7 @@ def run(tier, seed, pid="C02"):
             r = vlib.tlc(pid, qc.FAMILY, "QBFTMC", cfg, timeout=1500)
             vlib.require_mc_ok(r, cfg)
             o.add_mc(cfg, r)
+    qc.quorum_arith(o)
     # stage 1-3
     gen = []
     for k, (inst, byz) in enumerate([(1, "3"), (0, "0")] if not thorough else [(1, "3"), (0, "0"), (2, "1"), (3, "")]):
